@@ -43,7 +43,7 @@ PROBES = ["overloads_same_param_names", "optional_param_member", "class_missing_
           "xml_member_has_extra_optional_param", "overloads_with_permuted_param_names",
           "literals_crosschecked_with_gpp", "binding_after_fault_on_its_file", "text_longer_than_512", "decoy_class_with_similar_name",
           "decoy_member_with_similar_name", "param_documented_without_text", "param_item_without_name",
-          "section_ahead_of_return", "return_section_partial", "truncation_left_document_wellformed", "member_in_other_sectiondef", "xml_in_another_encoding"]
+          "section_ahead_of_return", "return_section_partial", "truncation_left_document_wellformed", "member_in_other_sectiondef", "xml_in_another_encoding", "lookup_without_a_literal", "constructor_documented_in_xml"]
 
 
 def batches(tier):
@@ -348,7 +348,10 @@ def gen_case(tape, batch):
         for f in c.of("method") + c.of("static"):
             arities.setdefault(f.name, set()).add(len(f.args))
         entry["_arities"] = arities
-        for f in c.of("method") + c.of("static"):
+        ctor_docs = c.of("ctor") if tape.bool(0.3, "document-constructors") else []
+        if ctor_docs:
+            pr["constructor_documented_in_xml"] = 1
+        for f in c.of("method") + c.of("static") + ctor_docs:
             if f.tmpl is not None:
                 continue
             if tape.bool(0.12, "member-undocumented"):
@@ -708,6 +711,30 @@ def run_case(tape, batch):
             viol.append({"inv": "D5", "sig": "D5:not-pure-insertion",
                          "detail": "output with XML is not the output without XML plus `, \"literal\"` "
                                    "insertions: %s" % e})
+        if lits is not None and len(lits) < len(calls):
+            # a tool may leave out the literal of a lookup that returned nothing (`, ""` adds nothing): pair the
+            # literals with the calls in order, letting calls that returned "" go without one
+            paired, j = [], 0
+            for c in calls:
+                ret = c.get("ret", "")
+                nxt = None
+                if j < len(lits):
+                    try:
+                        nxt = decode_literal(lits[j])
+                    except LiteralError:
+                        nxt = None
+                need = len(calls) - len(paired) - 1          # calls still to be served after this one
+                if j < len(lits) and (ret != "" or nxt == b"" or len(lits) - j > need):
+                    paired.append(lits[j])
+                    j += 1
+                elif ret == "":
+                    paired.append("")
+                    w.probe("lookup_without_a_literal")
+                else:
+                    paired = None
+                    break
+            if paired is not None and j == len(lits):
+                lits = paired
         if lits is not None and len(lits) != len(calls):
             viol.append({"inv": "D5", "sig": "D5:literal-count",
                          "detail": "%d inserted literals for %d extract_docstring calls" % (len(lits), len(calls))})
